@@ -229,7 +229,20 @@ _W4 = {
     "C17": " Fourth-wave additions: server-side connections fail a second Close (net.ErrClosed) in half of the runs; a connection already reported to the close callback does not count as live.",
     "C19": " Fourth-wave additions: read timeouts reported as *net.OpError wrapping the sentinel; serial port variant with SetReadDeadline and without Flush; the hook-less twin built with WithSerialHooks(nil).",
 }
+_W5 = {
+    "C05": " Fifth-wave additions: builders created with non-trivial default server / unit; the unit-id pool starts at a tape-chosen place (unit 0, 255 and the colliding pairs are all drawn).",
+    "C07": " Fifth-wave additions: before a follow-up call the client may be connected again (with or without Close; the dial function hands out generations of the connection); protocol constructors given a config that names one of the protocol's own functions.",
+    "C08": " Fifth-wave additions: a foreign timeout error (net.Error, not wrapping os.ErrDeadlineExceeded) among the I/O error identities.",
+    "C13": " Fifth-wave additions: the views' default byte order is configured per run; byte orders on 16-bit definitions.",
+    "C14": " Fifth-wave additions: a second Close task; dialling and closing the port take simulated time; short client timeouts (20 ms / 2 ms) in a third of the network runs.",
+    "C15": " Fifth-wave additions: the handler keeps every request object it is given and re-encodes it after the traffic.",
+    "C16": " Fifth-wave additions: the handler keeps every request object it is given and re-encodes it after the traffic.",
+    "C17": " Fifth-wave additions: handlers that watch their context; after a serving ended by cancellation the same Server value serves again on a new listener (one request, then cancel or Shutdown).",
+    "C19": " Fifth-wave additions: follow-up calls after Connect / Close+Connect; a read still in progress when Do returns can never be reported to the hooks (read_never_reported).",
+}
 for _k, _v in _W3.items():
     META[_k]["rule"] += _v
 for _k, _v in _W4.items():
+    META[_k]["rule"] += _v
+for _k, _v in _W5.items():
     META[_k]["rule"] += _v
